@@ -132,7 +132,7 @@ def run_traced(binp, cases, work, shards, trace_files):
         outs.append(o)
         trace_files.append(t)
         procs.append(subprocess.Popen([binp, "searcher", "--cases", cases, "--shard", "%d/%d" % (i, shards), "--out", o, "--trace-out", t,
-                                       "--seed", str(C.seed())], stdout=subprocess.DEVNULL, stderr=subprocess.PIPE))
+                                       "--seed", str(C.seed())], stdout=subprocess.DEVNULL, stderr=subprocess.PIPE, preexec_fn=S.limit_memory))
     crashes = []
     for i, p in enumerate(procs):
         try:
